@@ -35,6 +35,8 @@ def run(ctx):
     fill(ctx)
     dist(ctx)
     flatten(ctx)
+    wrappers(ctx)
+    plotly(ctx)
 
 
 def build(ctx):
@@ -175,6 +177,11 @@ def fill(ctx):
         ctx.ob("AGREE-branches", site, "%s: overwrite and accumulate branches store the same count" % lab, ok, "", mm[0] if mm else None)
         okg = len(ow) == 1 and len(ac) == 1 and any(g == fresh or q.pred_equiv(g, fresh) for g in guards(ow[0])) and not q.guard_set_implies(ac[0], q.conjuncts(T.mk_not(fresh)))
         ctx.ob("GRD", site, "%s: overwrite iff the id is new or reset is requested, accumulate otherwise" % lab, okg, "", mm[0] if mm else None)
+    for e in muts:
+        extra = [g for g in q.guards_in(e, site) if not (q.pred_equiv(g, leafg) or q.pred_equiv(g, T.mk_not(leafg)) or g == fresh or q.pred_equiv(g, fresh) or
+                                                          any(q.pred_equiv(g, x) for x in q.conjuncts(T.mk_not(fresh))) or g == T.mk_cmp("!=", node, T.NONE) or
+                                                          g == T.mk_not(T.mk_and([T.mk_cmp("!=", node, T.NONE), leafg])))]
+        ctx.ob("GRD", site, "count stores depend only on leaf / inner node and new-id-or-reset", not extra, "further guards: %s" % "; ".join(q.short(g, 60) for g in extra), e)
     # no early exit before the count is stored (stale counts would survive a reset fill)
     first = min((e.seq for e in muts), default=10 ** 9)
     for e in tr.returns():
@@ -260,6 +267,8 @@ def dist(ctx):
             t = q.sub(d, const("node_count_test"))
             # it is a sum of the two columns (coefficients +1)
             okd = okd and not T.mentions(_strip(t), lambda a: a[0] in ("call",) and a[1] not in ("pandas.DataFrame.from_dict", "list"))
+            cols2 = list(t.atoms())
+            okd = okd and len(cols2) == 2 and T.same(t, atom(cols2[0]) + atom(cols2[1])) and {frozenset(colkeys(atom(x))) for x in cols2} == {frozenset({"cell_count"}), frozenset({"count_diff"})}
         ctx.ob("FRM", PART + ".to_plotly_dataframe", "test count = reference count + count difference", okd, "", ap[0])
 
 
@@ -319,3 +328,185 @@ def flatten(ctx):
                     ctx.ob("DEFAULT-ARG", fi.qualname, "as_flattened_array called with an explicit output list", ok,
                            "the parameter has a mutable default; omitting it accumulates rows across calls")
     ctx.floor("external call sites of as_flattened_array", n, 1)
+
+
+# ---------------------------------------------------------------------------
+# wrappers, guards and small tables
+
+def _tab(ctx, site, attrs, table):
+    for k, w in table.items():
+        got = attrs.get(k)
+        ctx.ob("TAB-struct", site, "%s after the call" % k, got is not None and (got == w or T.same(got, w)),
+               "is %s ; documented %s" % (q.short(got, 100) if got is not None else "unset", q.short(w, 100)))
+
+
+def _ndim_le_1(t):
+    return T.mk_cmp("<=", atom(("call", "len", (atom(("getattr", t, "shape")),), ())), const(1))
+
+
+def wrappers(ctx):
+    data = P("data")
+    # constructors
+    ti = ctx.trace(PART, "__init__")
+    _tab(ctx, PART + ".__init__", ti.final.attrs if ti.final is not None else {},
+         {"count_ubound": P("count_ubound"), "cutpoint_proportion_lbound": P("cutpoint_proportion_lbound"), "node": T.NONE, "leaves": atom(("list", ()))})
+    tn = static_trace(ctx, NODE, "__init__")
+    _tab(ctx, NODE + ".__init__", tn.final.attrs if tn.final is not None else {},
+         {k: P(k) for k in ("num_samples_in_compared_subtrees", "axis", "midpoint_at_axis", "left", "right")})
+    # build wrapper
+    tb = ctx.trace(PART, "build")
+    site = PART + ".build"
+    rets = [e for e in tb.returns() if len(e.stack) == 1]
+    none_rets = [e for e in rets if e.value == T.NONE]
+    ctx.ob("GRD", site, "only data without a column dimension is refused", len(none_rets) == 1 and [g for g in q.guards_in(none_rets[0], site)] == [_ndim_le_1(data)],
+           "guards: %s" % "; ".join(q.short(g, 60) for e in none_rets for g in q.guards_in(e, site)), none_rets[0] if none_rets else None)
+    cs = [e for e in tb.calls() if e.d.get("fi") is not None and e.fi.qualname == NODE + ".build" and len(e.stack) == 1]
+    if cs and len(cs[0].args) >= 3:
+        mc = cs[0].args[2].single_atom()
+        ok = False
+        if mc is not None and mc[0] == "comp":
+            elt, its = mc[2][0], mc[3]
+            ix = [x for x in T.atoms_of(elt, "idx")]
+            ra = its[0].single_atom() if its else None
+            ncols = q.sub(atom(("getattr", data, "shape")), 1)
+            if len(set(ix)) == 1 and ra is not None and ra[0] == "call" and ra[1] == "range" and tuple(ra[2]) == (ncols,):
+                want = atom(("call", "int", (A("cutpoint_proportion_lbound") * atom(("call", "numpy.ptp", (col(data, atom(ix[0])),), ())),), ()))
+                ok = elt == want
+        ctx.ob("FRM", site, "minimum cell size per axis = int(cutpoint_proportion_lbound * range of that column)", ok, q.short(cs[0].args[2], 160), cs[0])
+        st = tb.stores("node")
+        built = q.call_value(tb, cs[0])
+        ctx.ob("FRM", site, "the root is kept and returned", len(st) == 1 and built is not None and st[0].value == built and any(e.value == st[0].value for e in rets),
+               q.short(st[0].value, 80) if st else "", st[0] if st else None)
+    # fill wrapper
+    tf = ctx.trace(PART, "fill")
+    site = PART + ".fill"
+    rets = [e for e in tf.returns() if len(e.stack) == 1]
+    none_rets = [e for e in rets if e.value == T.NONE]
+    want = T.mk_or([T.mk_cmp("==", A("node"), T.NONE), _ndim_le_1(data)])
+    ok = len(none_rets) == 1 and any(g == want or q.pred_equiv(g, want) for g in [T.mk_and(q.guards_in(none_rets[0], site))] + q.guards_in(none_rets[0], site))
+    ctx.ob("GRD", site, "filling is refused only without a tree or for data without a column dimension", ok,
+           "guards: %s" % "; ".join(q.short(g, 80) for e in none_rets for g in q.guards_in(e, site)), none_rets[0] if none_rets else None)
+    ctx.ob("FRM", site, "the root is returned", any(e.value == A("node") or q.unmut(e.value) == A("node") for e in rets), "")
+    # reset wrapper
+    tr_ = ctx.trace(PART, "reset")
+    cs = [e for e in tr_.calls() if e.d.get("fi") is not None and e.fi.qualname == NODE + ".reset" and len(e.stack) == 1]
+    ok = len(cs) == 1 and (tuple(cs[0].args) + tuple(v for _k, v in sorted(cs[0].kwargs)))[:1] == (A("node"),) and \
+        dict(cs[0].kwargs).get("value", cs[0].args[1] if len(cs[0].args) > 1 else None) == P("value") and \
+        dict(cs[0].kwargs).get("tree_id", cs[0].args[2] if len(cs[0].args) > 2 else None) == P("tree_id")
+    ctx.ob("FWD", PART + ".reset", "forwards the root, the value and the id", ok, "")
+    # node reset
+    tr2 = static_trace(ctx, NODE, "reset")
+    site = NODE + ".reset"
+    node = P("node")
+    mu = [e for e in tr2.of("localmut") if e.name == "node" and len(e.stack) == 1]
+    ok = len(mu) == 1 and mu[0].value == P("value") and mu[0].path == (("attr", "num_samples_in_compared_subtrees"), ("item", P("tree_id")))
+    ctx.ob("FRM", site, "the count of the id is set to the value at this node", ok, "", mu[0] if mu else None)
+    rc = rec_calls(tr2, site)
+    kids = set()
+    for e in rc:
+        a0 = q.unmut(e.args[0]).single_atom() if e.args else None
+        if a0 is not None and a0[0] == "getattr" and a0[1] == node and tuple(e.args[1:3]) == (P("value"), P("tree_id")):
+            kids.add(a0[2])
+    ctx.ob("FWD", site, "both children are reset with the same value and id", kids == {"left", "right"} and len(rc) == 2, "visited %s" % sorted(kids))
+    for e in mu + rc:
+        g = q.guards_in(e, site)
+        ctx.ob("GRD", site, "every existing node is reset", len(g) == 1 and g[0] in (atom(("truth", node)), node, T.mk_cmp("!=", node, T.NONE)) or (len(g) == 1 and _is_truth_of(g[0], node)),
+               "guards: %s" % "; ".join(q.short(x, 60) for x in g), e)
+    # node build: empty selections give no node
+    tnb = static_trace(ctx, NODE, "build")
+    site = NODE + ".build"
+    n = q.sub(atom(("getattr", data, "shape")), 0)
+    m = q.sub(atom(("getattr", data, "shape")), 1)
+    empty = T.mk_or([T.mk_cmp("==", n, const(0)), T.mk_cmp("==", m, const(0))])
+    nr = [e for e in tnb.returns() if len(e.stack) == 1 and e.value == T.NONE]
+    ok = len(nr) == 1 and any(g == empty or q.pred_equiv(g, empty) for g in [T.mk_and(q.guards_in(nr[0], site))] + q.guards_in(nr[0], site))
+    ctx.ob("GRD", site, "no node is created exactly for an empty selection", ok, "guards: %s" % "; ".join(q.short(g, 80) for e in nr for g in q.guards_in(e, site)), nr[0] if nr else None)
+    # leaf_counts / kl_distance on an empty tree
+    tl = ctx.trace(PART, "leaf_counts")
+    leaves_ = list(q.ite_leaves(tl.retval)) if tl.retval is not None else []
+    ok = len(leaves_) == 2 and any(l == T.NONE for _c, l in leaves_) and any((l.single_atom() or ("",))[0] == "comp" and _is_truth_of_any(c_, A("leaves")) for c_, l in leaves_)
+    ctx.ob("GRD", PART + ".leaf_counts", "counts are listed exactly when the tree has leaves", ok, q.short(tl.retval, 120) if tl.retval is not None else "")
+    tk = ctx.trace(PART, "kl_distance")
+    nr = [e for e in tk.returns() if len(e.stack) == 1 and e.value == T.NONE]
+    ok = len(nr) == 1 and q.guards_in(nr[0], PART + ".kl_distance") == [T.mk_cmp("==", A("leaves"), atom(("list", ())))]
+    ctx.ob("GRD", PART + ".kl_distance", "no divergence only for a tree without leaves", ok, "guards: %s" % "; ".join(q.short(g, 80) for e in nr for g in q.guards_in(e, PART + ".kl_distance")))
+
+
+def _is_truth_of(g, t):
+    a = g.single_atom()
+    if a is None:
+        return False
+    if g == t:
+        return True
+    return a[0] in ("truth", "bool") and len(a) > 1 and a[1] == t
+
+
+def _is_truth_of_any(conds, t):
+    return any(_is_truth_of(c, t) for c in conds)
+
+
+def plotly(ctx):
+    site = PART + ".to_plotly_dataframe"
+    tp = ctx.trace(PART, "to_plotly_dataframe")
+    ap = [e for e in tp.calls() if e.callee[0] == "mcall" and e.callee[1] == "apply"]
+    for e in ap:
+        g = q.guards_in(e, site)
+        ctx.ob("GRD", site, "the Kulldorff statistic is computed exactly when a second tree id is given", g == [T.mk_cmp("!=", P("tree_id2"), T.NONE)],
+               "guards: %s" % "; ".join(q.short(x, 60) for x in g), e)
+        ctx.ob("FWD", site, "one statistic per row (axis=1)", dict(e.kwargs).get("axis") == const(1), "", e)
+    fl = [e for e in tp.of("local") if e.func.qualname == site]
+    flt = [e for e in fl if (e.value.single_atom() or ("",))[0] == "sub" and q.is_cmp(e.value.single_atom()[2]) is not None and
+           T.mentions(e.value.single_atom()[2], lambda z: z[0] == "getattr" and z[2] == "depth")]
+    ok = False
+    if len(flt) == 1:
+        a = flt[0].value.single_atom()
+        c = q.is_cmp(a[2])
+        g = q.guards_in(flt[0], site)
+        ok = c is not None and q.cmp_equiv(a[2], T.mk_cmp("<=", atom(("getattr", a[1], "depth")), P("max_depth"))) and len(g) == 1 and _is_truth_of(g[0], P("max_depth"))
+    ctx.ob("FRM", site, "max_depth keeps the rows of depth <= max_depth", ok, q.short(flt[0].value, 120) if flt else "no filter", flt[0] if flt else None)
+    fa = [e for e in tp.calls() if e.d.get("fi") is not None and e.fi.qualname == NODE + ".as_flattened_array" and len(e.stack) == 1]
+    if fa:
+        kw = dict(fa[0].kwargs)
+        ok = (fa[0].args[:1] == (A("node"),) or kw.get("node") == A("node")) and kw.get("tree_id1") == P("tree_id1") and kw.get("tree_id2") == P("tree_id2") and kw.get("input_cols") == P("input_cols")
+        ctx.ob("FWD", site, "the whole tree is flattened for the two given ids", ok, "", fa[0])
+    # flattening guards
+    site2 = NODE + ".as_flattened_array"
+    tr = static_trace(ctx, NODE, "as_flattened_array")
+    node = P("node")
+    keys = atom(("mcall", atom(("getattr", node, "num_samples_in_compared_subtrees")), "keys", (), ()))
+    ap2 = [e for e in tr.of("localmut") if e.name == "output" and e.how == "method:append" and len(e.stack) == 1]
+    for e in ap2:
+        g = q.guards_in(e, site2)
+        has_in = any(x == atom(("in", P("tree_id1"), keys)) for x in g)
+        has_node = any(_is_truth_of(x, node) or x == T.mk_cmp("!=", node, T.NONE) for x in g)
+        ctx.ob("GRD", site2, "a row is produced for every node that has a count for the reference id", has_in and has_node and len(g) == 2, "guards: %s" % "; ".join(q.short(x, 60) for x in g), e)
+    for e in rec_calls(tr, site2):
+        a0 = q.unmut(e.args[0]).single_atom() if e.args else None
+        side = a0[2] if a0 is not None and a0[0] == "getattr" else "?"
+        own = [x for x in q.guards_in(e, site2) if not (x == atom(("in", P("tree_id1"), keys)) or _is_truth_of(x, node) or x == T.mk_cmp("!=", node, T.NONE))]
+        child = atom(("getattr", node, side))
+        ok = all(x == T.mk_cmp("!=", child, T.NONE) or _is_truth_of(x, child) or q.unmut(x) == T.mk_cmp("!=", child, T.NONE) for x in own) and len(own) <= 1
+        ctx.ob("GRD", site2, "the %s child is visited whenever it exists" % side, ok, "guards: %s" % "; ".join(q.short(x, 60) for x in own), e)
+    # count difference cases
+    if ap2:
+        row = ap2[0].value.single_atom()[1][0]
+        cd = q.sub(row, const("count_diff"))
+        conds = [c for c, l in q.ite_leaves(cd)]
+        flat = [x for c in conds for x in c]
+        cnt = atom(("getattr", node, "num_samples_in_compared_subtrees"))
+        c1, c2 = q.sub(cnt, P("tree_id1")), q.sub(cnt, P("tree_id2"))
+        isin = atom(("in", P("tree_id2"), keys))
+        ok = True
+        seen = set()
+        for cs_, l in q.ite_leaves(cd):
+            given = any(_is_truth_of(x, P("tree_id2")) for x in cs_)
+            if T.same(l, c2 - c1) and not T.mentions(l, lambda z: z[0] == "sub" and z[2] == const("count_diff")):
+                ok = ok and given and isin in cs_
+                seen.add("present")
+            elif T.same(l, -c1):
+                ok = ok and given and (T.mk_not(isin) in cs_ or atom(("notin", P("tree_id2"), keys)) in cs_)
+                seen.add("absent")
+            else:
+                ok = ok and not given
+        ok = ok and seen == {"present", "absent"}
+        ctx.ob("GRD", site2, "the count difference is reported exactly when a second id is given, from that id's count when present", ok, q.short(cd, 160), ap2[0])
